@@ -62,18 +62,22 @@ PROPS = {
 
 PROPS.update({
     "C03": {
-        "parts": [ktmc("C03")],
+        "needs": ["harness", "cli", "py"],
+        "parts": [ktmc("C03"), lambda tier: __import__("hist").c03_cli(tier)],
         "rule": "every k in 1..=10 with all 4^k codes: column count = closed form, every canonical code maps to its "
                 "rank in the sorted model index and the inverse map returns it; header through get_header (k<=8) and "
-                "through both writer paths x 3 delimiters (k<=6). Non-trivial = each canonical code / header checked.",
+                "through both writer paths x 3 delimiters (k<=6); header line of `kmertools comp oligo -H` for k 3..=7 x 3 presets x "
+                "(default, -c) and of pykmertools get_header for k 1..=8. Non-trivial = each canonical code / header checked.",
         "assumptions": COMMON_ASSUME,
     },
     "C04": {
-        "parts": [ktmc("C04")],
+        "needs": ["harness", "cli", "py"],
+        "parts": [ktmc("C04"), lambda tier: __import__("hist").c04_cli(tier)],
         "rule": "per-record routine on every string over {A,C,G,T,N} up to the stated length x k 1..=4, mixed-case/U "
                 "strings x k 1..=3 and structured inputs for k 5..=8, raw and normalised, each with its reverse "
                 "complement / lower-case / U-for-T variant; the file API on all short strings as one FASTA through "
-                "the mmap writer (3 and 16 threads), the batch writer (default and 7-base limit) and counts mode. "
+                "the mmap writer (3 and 16 threads), the batch writer (default and 7-base limit) and counts mode; the release binary (k 3..=5, default and -c, 1 "
+                "and 16 threads) and the Python binding (k 1..=3) on every string up to length 4 (thorough 5). "
                 "Oracle: integer counts per canonical rank and exact ratio c/t within 5e-7. Non-trivial = record "
                 "with at least one window position.",
         "assumptions": COMMON_ASSUME + ["rayon's schedule inside par_iter().collect() of the batch writer is not controlled (trusted ordered collect)"],
